@@ -10,6 +10,7 @@ package main
 
 import (
 	"fmt"
+	"math/rand/v2"
 	"time"
 
 	"github.com/vmware/go-ipfix/pkg/entities"
@@ -46,6 +47,14 @@ func main() {
 		domain := r.Uint32()
 		if r.IntN(6) == 0 {
 			domain = []uint32{0, 1, 0xffffffff, 0x80000000}[r.IntN(4)]
+		}
+		if k%16 == 9 {
+			// a UDP session with the minimum template refresh interval: the library's own
+			// refresh goroutine transmits templates concurrently with the application's sends
+			c.Journal(k, map[string]any{"kind": "udp-refresh", "v6": v6, "domain": domain})
+			c.Eval(1)
+			refreshSession(c, k, r, v6, domain, small)
+			continue
 		}
 		wrap := r.IntN(3) == 0
 		nsend := 20 + r.IntN(60)
@@ -177,5 +186,100 @@ func main() {
 		if k < from+5 {
 			c.Sample(5, desc)
 		}
+	}
+}
+
+// refreshSession checks the sequence-number rule in capture order while the UDP template
+// refresh runs concurrently with application sends (every transmitted message, whoever
+// sent it, must carry the count of data records transmitted so far).
+func refreshSession(c *hx.Ctx, k int, r *rand.Rand, v6 bool, domain uint32, small []regtable.Elem) {
+	s, err := lib.NewExpSession("udp", v6, domain, 1, 0)
+	if err != nil {
+		c.Inconclusive("session: " + err.Error())
+		return
+	}
+	defer s.Close()
+	start := uint32(0)
+	if r.IntN(2) == 0 {
+		start = uint32(0x100000000 - uint64(1+r.IntN(3000)))
+		s.EP.VerifSetSeqNumber(start)
+	}
+	type tm struct {
+		tid   uint16
+		elems []regtable.Elem
+	}
+	var tms []tm
+	for i := 0; i < 1+r.IntN(3); i++ {
+		t := tm{s.EP.NewTemplateID(), gen.Template(r, small, 1+r.IntN(4))}
+		set, err := lib.TemplateSet(t.tid, t.elems, r.IntN(4))
+		if err != nil {
+			c.Violation(k, "templateset-error", err.Error(), nil)
+			return
+		}
+		if _, err := s.EP.SendSet(set); err != nil {
+			c.Violation(k, "send-error", err.Error(), nil)
+			return
+		}
+		tms = append(tms, t)
+	}
+	var nrecs []int
+	t0 := time.Now()
+	for time.Since(t0) < 2300*time.Millisecond {
+		t := tms[r.IntN(len(tms))]
+		recs := gen.Records(r, t.elems, 1+r.IntN(6), 4000)
+		set := entities.NewSet(false)
+		if err := lib.FillDataSet(set, t.tid, t.elems, recs, r); err != nil {
+			c.Violation(k, "dataset-error", err.Error(), nil)
+			return
+		}
+		if _, err := s.EP.SendSet(set); err != nil {
+			c.Violation(k, "send-error", err.Error(), nil)
+			return
+		}
+		nrecs = append(nrecs, len(recs))
+		if r.IntN(3) == 0 {
+			time.Sleep(time.Duration(r.IntN(1500)) * time.Microsecond)
+		}
+	}
+	time.Sleep(30 * time.Millisecond)
+	cnt := start
+	di, refresh := 0, 0
+	for i, dg := range s.UDP.All() {
+		m, err := refipfix.ParseMessage(dg.Data)
+		if err != nil {
+			c.Violation(k, "malformed", fmt.Sprintf("datagram %d: %v", i, err), nil)
+			return
+		}
+		if m.SetID != 2 {
+			if di >= len(nrecs) {
+				c.Violation(k, "extra-bytes", "a data datagram the application did not send", nil)
+				return
+			}
+			cnt += uint32(nrecs[di])
+			di++
+		} else if i >= len(tms) {
+			refresh++
+		}
+		if m.Seq != cnt {
+			kind := "D"
+			if m.SetID == 2 {
+				kind = "T-refresh"
+			}
+			c.Violation(k, "seq:"+kind, fmt.Sprintf("datagram %d (set id %d) carries sequence number %d; %d data records were transmitted up to and including it (concurrent template refresh)", i, m.SetID, m.Seq, cnt), nil)
+			return
+		}
+		if m.Domain != domain {
+			c.Violation(k, "domain", fmt.Sprintf("datagram %d: observation domain %d, configured %d", i, m.Domain, domain), nil)
+			return
+		}
+	}
+	if di != len(nrecs) {
+		c.Inconclusive(fmt.Sprintf("session %d: %d of %d data datagrams arrived", k, di, len(nrecs)))
+		return
+	}
+	c.Add("udp_refresh_sessions", 1)
+	c.Add("refresh_templates_seen_between_app_sends", int64(refresh))
+	if refresh > 0 {
+		c.Nontrivial(hx.H64("refresh", k, len(nrecs), refresh))
 	}
 }
